@@ -1,5 +1,5 @@
 SPECIFICATION Spec
-CONSTANTS Mode = "mgr"  MaxT = 8  Timeout = 7000  MaxFail = 2
+CONSTANTS Mode = "mgr"  MaxT = 7  Timeout = 7000  MaxFail = 2  Rich = TRUE
 INVARIANTS AgreeBothWays AcceptedTrue
 VIEW View
 CHECK_DEADLOCK FALSE
